@@ -19,6 +19,8 @@ func main() {
 		cmdFn(os.Args[2:])
 	case "check":
 		cmdCheck(os.Args[2:])
+	case "gen":
+		cmdGen(os.Args[2:])
 	default:
 		fmt.Fprintln(os.Stderr, "unknown command", os.Args[1])
 		os.Exit(2)
@@ -112,5 +114,57 @@ func cmdFn(args []string) {
 				}
 			}
 		}
+	}
+}
+
+// cmdGen generates (but does not solve) the VCs of every in-repo function: a smoke test of the translator.
+func cmdGen(args []string) {
+	P, err := loadProgram("/repo", []string{"./..."})
+	if err != nil {
+		fmt.Fprintln(os.Stderr, "load:", err)
+		os.Exit(2)
+	}
+	P.loadContracts("/verif/contracts")
+	var keys []string
+	for k := range P.funcs {
+		keys = append(keys, k)
+	}
+	sort.Strings(keys)
+	reasons := map[string]int{}
+	ok, bad, nob := 0, 0, 0
+	for _, k := range keys {
+		if len(args) > 0 && !strings.HasPrefix(k, args[0]) {
+			continue
+		}
+		func() {
+			defer func() {
+				if r := recover(); r != nil {
+					bad++
+					msg := fmt.Sprint(r)
+					if len(msg) > 100 {
+						msg = msg[:100]
+					}
+					reasons["PANIC: "+msg]++
+					fmt.Println("PANIC", k, msg)
+				}
+			}()
+			vc := P.genVC(P.funcs[k], genOpts{})
+			if vc.err != nil {
+				bad++
+				reasons[vc.err.Error()]++
+				return
+			}
+			ok++
+			nob += len(vc.obligs)
+		}()
+	}
+	fmt.Printf("%d functions translated (%d obligations), %d unsupported\n", ok, nob, bad)
+	var rs []string
+	for r, n := range reasons {
+		rs = append(rs, fmt.Sprintf("%5d %s", n, r))
+	}
+	sort.Sort(sort.Reverse(sort.StringSlice(rs)))
+	for _, r := range rs {
+		fmt.Println(r)
 	}
 }
